@@ -1,7 +1,8 @@
 (* C13 - Indicators sharing candles do not interfere with one another. *)
 From Coq Require Import ZArith List String Bool.
 From Hexital Require Import Base.Prelude Base.Num Model.Manager Model.Candle Model.Readings Model.Engine
-  Proofs.AccessProofs Proofs.FrameProofs.
+  Model.Analysis Inst.ZInst Proofs.AccessProofs Proofs.FrameProofs Proofs.AnalysisProofs Proofs.CausalProofs
+  Proofs.SimProofs Proofs.NonInterference.
 Import ListNotations.
 
 (* Whatever any indicator tree does - calculate, calculate_index (positive or negative
@@ -39,3 +40,48 @@ Theorem C13_purge_leaves_others_alone :
     (forall sub nm, ~ In (sub, nm) (tree_names O FUEL I) -> lookup_own O sub (p c') nm = lookup_own O sub (p c) nm).
 Proof. exact purge_exact. Qed.
 Print Assumptions C13_purge_leaves_others_alone.
+
+(* ---- the read half: what a leaf indicator can see ---- *)
+
+(* _calculate_reading of every indicator class without helper series depends only on the
+   candles' OHLCV and on the readings it names (its inputs and its own name): two stores that
+   agree on those give the same value, or the same exception *)
+Theorem C13_leaf_reads_only_its_inputs :
+  forall (O : NumOps) (I : ind O) (st1 st2 : store O) (i : Z),
+  leaf_kind O (i_kind O I) = true ->
+  Forall2 (sim O (reads O (i_kind O I) (i_name O I))) st1 st2 ->
+  pure_calc O I st1 i = pure_calc O I st2 i.
+Proof. exact reads_only. Qed.
+Print Assumptions C13_leaf_reads_only_its_inputs.
+
+(* Non-interference.  B is a top-level leaf indicator; [others] are the entries any other
+   indicators on the same candles may write (the names of their trees).  If none of them is a
+   name B reads or B's own name (foreign), then along every paired history - side 1 with the
+   others, side 2 with B alone; the same candles appended to both; B calculating on both; the
+   others doing anything that satisfies the frame condition (calculate, calculate_index, purge,
+   recalculate, remove_indicator of any of the 27 classes: the theorems above) on side 1 only -
+   B's entry on every candle is the same on both sides, and calculate() raises on one side
+   exactly when it raises on the other. *)
+Theorem C13_leaf_noninterference :
+  forall (O : NumOps) (B : ind O) (others : list (bool * string)),
+  i_subs O B = [] /\ i_managed O B = [] -> i_sub O B = false -> leaf_kind O (i_kind O B) = true ->
+  has_dot (i_name O B) = false -> foreign O B others ->
+  forall s1 s2 : store O, Paired O B others s1 s2 ->
+  map (fun c => alist_get (i_name O B) (inds O (p c))) s1 = map (fun c => alist_get (i_name O B) (inds O (p c))) s2 /\
+  (forall e, calculate O B s1 = Err e <-> calculate O B s2 = Err e).
+Proof. intros O B others Hl Ht Hk Hn Hf s1 s2 HP. eapply noninterference; eassumption. Qed.
+Print Assumptions C13_leaf_noninterference.
+
+(* purge satisfies the frame condition as well (the form Paired asks for) *)
+Theorem C13_purge_frame :
+  forall (O : NumOps) (A : ind O) (st : store O), frame O (tree_names O FUEL A) st (purge O A st).
+Proof. exact purge_frame. Qed.
+Print Assumptions C13_purge_frame.
+
+(* the premises are satisfiable: SMA(3) on close next to an ATR(5) *)
+Example C13_foreign_example :
+  foreign ZOps (top ZOps (K_SMA 3%Z "close") "SMA_3" 4%Z) (tree_names ZOps FUEL (top ZOps (K_ATR 5%Z) "ATR_5" 4%Z)).
+Proof.
+  intros n sub Hn. vm_compute in Hn. vm_compute.
+  destruct Hn as [<-|[<-|[<-|[]]]]; intros [H|[H|[]]]; inversion H.
+Qed.
